@@ -192,6 +192,82 @@ def Ty.supGL (td : Bool) : List Ty → Bool
 termination_by structural ts => ts
 end
 
+/-- **Round-trip scope of one union**, stated with the disambiguator model's predicates: the members are
+distinct attrs classes / dataclasses; the decision function can be created for the union and for every literal
+sub-union a member payload can be routed to (`Disambig.deepOk`, the hypothesis of `C12_complete`); and every
+`Literal`-typed attribute of a member is an `__init__` argument (the generated dict hooks do not emit
+`init=False` attributes, so a literal discriminator among them would be missing from the payload). -/
+def unionOKB (w : World) (cs : List Nat) : Bool :=
+  decide cs.Nodup && unionMembersOk w cs
+  && Disambig.deepOk Disambig.SetOrder.id w.table cs.length cs
+  && cs.all (fun c => (w.fields c).all (fun f => match f.ty with | some (.lit _) => f.init | _ => true))
+
+mutual
+/-- every union inside the type is in the round-trip scope; under the tuple strategy (`tup`) no union is: the
+decision function only accepts mappings -/
+def Ty.unionsOK (w : World) (tup : Bool) : Ty → Bool
+  | .union cs _ => !tup && unionOKB w cs
+  | .coll _ t => t.unionsOK w tup
+  | .tupleHet ts => Ty.unionsOKL w tup ts
+  | .map _ kt vt => kt.unionsOK w tup && vt.unionsOK w tup
+  | .opt t => t.unionsOK w tup
+  | .wrap _ t => t.unionsOK w tup
+  | _ => true
+termination_by structural t => t
+def Ty.unionsOKL (w : World) (tup : Bool) : List Ty → Bool
+  | [] => true
+  | t :: ts => t.unionsOK w tup && Ty.unionsOKL w tup ts
+termination_by structural ts => ts
+end
+
+/-- the same for every field type of the class table -/
+def World.unionsOK (w : World) (tup : Bool) : Prop :=
+  ∀ c, ∀ f ∈ w.fields c, ∀ t, f.ty = some t → t.unionsOK w tup = true
+
+mutual
+/-- no union anywhere in the type -/
+def Ty.noUnion : Ty → Bool
+  | .union _ _ => false
+  | .coll _ t => t.noUnion
+  | .tupleHet ts => Ty.noUnionL ts
+  | .map _ kt vt => kt.noUnion && vt.noUnion
+  | .opt t => t.noUnion
+  | .wrap _ t => t.noUnion
+  | _ => true
+termination_by structural t => t
+def Ty.noUnionL : List Ty → Bool
+  | [] => true
+  | t :: ts => t.noUnion && Ty.noUnionL ts
+termination_by structural ts => ts
+end
+
+mutual
+theorem noUnion_unionsOK (w : World) (tup : Bool) : ∀ t : Ty, t.noUnion = true → t.unionsOK w tup = true
+  | .union _ _, h => by simp [Ty.noUnion] at h
+  | .coll _ t, h => by simp only [Ty.noUnion] at h; simp only [Ty.unionsOK]; exact noUnion_unionsOK w tup t h
+  | .tupleHet ts, h => by simp only [Ty.noUnion] at h; simp only [Ty.unionsOK]; exact noUnionL_unionsOKL w tup ts h
+  | .map _ kt vt, h => by
+      simp only [Ty.noUnion, Bool.and_eq_true] at h
+      simp only [Ty.unionsOK, Bool.and_eq_true]
+      exact ⟨noUnion_unionsOK w tup kt h.1, noUnion_unionsOK w tup vt h.2⟩
+  | .opt t, h => by simp only [Ty.noUnion] at h; simp only [Ty.unionsOK]; exact noUnion_unionsOK w tup t h
+  | .wrap _ t, h => by simp only [Ty.noUnion] at h; simp only [Ty.unionsOK]; exact noUnion_unionsOK w tup t h
+  | .any, _ | .int, _ | .float, _ | .str, _ | .bytes, _ | .bool, _ | .enum _, _ | .lit _, _ | .cls _, _ | .td _, _ => by
+      simp [Ty.unionsOK]
+theorem noUnionL_unionsOKL (w : World) (tup : Bool) : ∀ ts : List Ty, Ty.noUnionL ts = true → Ty.unionsOKL w tup ts = true
+  | [], _ => by simp [Ty.unionsOKL]
+  | t :: ts, h => by
+      simp only [Ty.noUnionL, Bool.and_eq_true] at h
+      simp only [Ty.unionsOKL, Bool.and_eq_true]
+      exact ⟨noUnion_unionsOK w tup t h.1, noUnionL_unionsOKL w tup ts h.2⟩
+end
+
+/-- no field type of the class table mentions a union -/
+def World.noUnion (w : World) : Prop := ∀ c, ∀ f ∈ w.fields c, ∀ t, f.ty = some t → t.noUnion = true
+
+theorem World.noUnion.unionsOK {w : World} (h : w.noUnion) (tup : Bool) : w.unionsOK tup :=
+  fun c f hf t ht => noUnion_unionsOK w tup t (h c f hf t ht)
+
 /-- every field of every class is typed and in scope -/
 def World.supG (w : World) (td : Bool) : Prop :=
   ∀ c, ∀ f ∈ w.fields c, ∃ t, f.ty = some t ∧ t.supG td = true
@@ -272,6 +348,10 @@ theorem un_ne_none (td : Bool) (hg : cfg.gen = true) (hwe : w.WFE) :
   | .td c, x, _, hc, _ => by
       cases x <;> simp [conf] at hc
       simp [un, hg]
+  | .union cs hn, x, _, hc, hx => by
+      cases x <;> simp [conf] at hc
+      · exact absurd rfl hx
+      · simp only [un, unAny]; split <;> simp
 
 end CattrsModel
 
@@ -365,7 +445,8 @@ theorem un_hp (td : Bool) (hg : cfg.gen = true) (hwe : w.WFE) :
       · intro a b ha hb h
         simp only [un, hg, Bool.true_or, if_true] at h
         exact ih.2 a b (by simpa [conf] using ha) (by simpa [conf] using hb) h
-  | .any, hp, _ | .coll _ _, hp, _ | .tupleHet _, hp, _ | .map _ _ _, hp, _ | .cls _, hp, _ | .td _, hp, _ => by
+  | .any, hp, _ | .coll _ _, hp, _ | .tupleHet _, hp, _ | .map _ _ _, hp, _ | .cls _, hp, _ | .td _, hp, _
+  | .union _ _, hp, _ => by
       simp [Ty.hashPrim] at hp
 
 end CattrsModel
